@@ -158,8 +158,17 @@ def m_is_ki(ip, k):
 
 @_always
 def m_same(ip, a, b):
+    """contents equal; quantified (usable as assumption and as goal)"""
+    a, b = ip.resolve(a), ip.resolve(b)
+    if isinstance(a, ZList) and isinstance(b, ZList):
+        j = fresh('q', I)
+        return z3.And(zint(a.ln) == zint(b.ln),
+                      z3.ForAll([j], z3.Implies(z3.And(j >= 0, j < zint(a.ln)),
+                                                z3.Select(a.arr, j) == z3.Select(b.arr, j))))
+    if isinstance(a, HDict) and isinstance(b, HDict):
+        return m_dict_same(ip, a, b)
     out = []
-    same_value(ip, ip.resolve(a), ip.resolve(b), 'same', out)
+    same_value(ip, a, b, 'same', out)
     cs = [c for _, c in out]
     return z3.And(*cs) if cs else True
 
@@ -339,7 +348,7 @@ def m_all_nonempty(ip, items):
 def m_fresh_bytes(ip, tag, n):
     k = ip.ctx.count('fresh:' + str(tag))
     e = z3.Const(f'fresh_{tag}#{k}', BYTES)
-    ip.ctx.define(z3.Implies(zint(n) >= 0, z3.Length(e) == zint(n)))
+    ip.ctx.define(z3.Implies(zint(n) >= 0, z3.Length(e) == zint(n)), lenfact=True)
     cn = sym.concrete_int(n)
     return sym_bytes(e, cn if cn is not None else zint(n))
 
@@ -459,7 +468,77 @@ def m_imin(ip, a, b):
     return z3.If(zint(a) < zint(b), zint(a), zint(b))
 
 
+ref_len = z3.Function('ref_len', I, I)                       # length of the list behind a reference
+ref_arr = z3.Function('ref_arr', I, sym.ARR_IV)             # its elements
+
+
+def _entry(ip, d, k):
+    d = _as_hdict(ip, d)
+    sp, ke = models.key_space(ip, k)
+    return z3.Select(d.maps[sp], ke)
+
+
+@_always
+def m_is_bytes_or_absent(ip, d, k):
+    v = _entry(ip, d, k)
+    return z3.Or(VAL.is_absent(v), VAL.is_vbytes(v))
+
+
+@_always
+def m_is_bool_or_absent(ip, d, k):
+    v = _entry(ip, d, k)
+    return z3.Or(VAL.is_absent(v), VAL.is_vbool(v))
+
+
+@_always
+def m_is_int_or_absent(ip, d, k):
+    v = _entry(ip, d, k)
+    return z3.Or(VAL.is_absent(v), VAL.is_vint(v))
+
+
+@_always
+def m_is_list_or_absent(ip, d, k):
+    v = _entry(ip, d, k)
+    return z3.Or(VAL.is_absent(v), VAL.is_vref(v))
+
+
+@_always
+def m_list_len_at(ip, d, k):
+    v = _entry(ip, d, k)
+    return z3.If(VAL.is_vref(v), ref_len(VAL.r(v)), 0)
+
+
+@_always
+def m_calls(ip, name):
+    c = ip.ctx.ghost.get('body_counters')
+    if c is None:
+        c = ip.ctx.counters
+    return c.get('apply:functions.' + name, 0)
+
+
+@_always
+def m_ed_verify(ip, key, message, sig):
+    from . import crypto
+    return crypto.ed_verify(bexpr(ip.resolve(key)), bexpr(ip.resolve(message)), bexpr(ip.resolve(sig)))
+
+
+@_always
+def m_ed_sign(ip, seed, message):
+    from . import crypto
+    e = crypto.ed_sign(bexpr(ip.resolve(seed)), bexpr(ip.resolve(message)))
+    ip.ctx.define(z3.Length(e) == 64, lenfact=True)
+    return sym_bytes(e, 64)
+
+
 def install2():
+    models.register_model(vocab.is_bytes_or_absent, m_is_bytes_or_absent)
+    models.register_model(vocab.is_bool_or_absent, m_is_bool_or_absent)
+    models.register_model(vocab.is_int_or_absent, m_is_int_or_absent)
+    models.register_model(vocab.is_list_or_absent, m_is_list_or_absent)
+    models.register_model(vocab.list_len_at, m_list_len_at)
+    models.register_model(vocab.calls, m_calls)
+    models.register_model(vocab.ed_verify, m_ed_verify)
+    models.register_model(vocab.ed_sign, m_ed_sign)
     models.register_model(vocab.repeat, m_repeat)
     models.register_model(vocab.top_items, m_top_items)
     models.register_model(vocab.sdecode, m_sdecode2)
